@@ -877,6 +877,64 @@ pub fn c09(rng: &mut Rng, thorough: bool) -> Scenario {
     Scenario { ops, label: format!("c09 ml={} steps={}", cfg.max_len, steps) }
 }
 
+/// Prior values that must be fetched COLD: with rollback enabled a plain write (no read) makes the
+/// delta builder look the prior value up itself.  A b-tree larger than the smallest leaf cache
+/// (1 MiB = 32 shards of 8 leaves) is rewritten in one batch, among it keys whose prior values span
+/// more than 15 overflow pages (the cell lists 15 page numbers, the rest is only known once the first
+/// pages have been read): their leaves are no longer cached when the lookup starts, so the value is
+/// read through the asynchronous leaf-then-overflow path.  Then roll back: every prior must return.
+pub fn c09_cold_prior(rng: &mut Rng, _thorough: bool) -> Scenario {
+    let mut ops = Vec::new();
+    let mut ids = Ids::new();
+    let mut live = Live::default();
+    let mut cfg = gen_cfg(rng);
+    cfg.rollback = true;
+    cfg.max_len = *rng.pick(&[2u32, 3, 100]);
+    cfg.lc = 1;
+    cfg.ht = 64000;
+    cfg.cc = *rng.pick(&[1usize, 2, 4]);
+    ops.push(Op::Open(cfg.clone()));
+    let n = rng.range(1100, 1500) as usize;
+    let mut keys: Vec<Key> = (0..n).map(|_| rng.key()).collect();
+    keys.sort();
+    keys.dedup();
+    let nbig = rng.range(2, 5) as usize;
+    let big: Vec<Key> = (0..nbig).map(|_| keys[rng.below(keys.len() as u64) as usize]).collect();
+    let mut first: Vec<(Key, Acc)> = keys
+        .iter()
+        .map(|k| {
+            let len = if big.contains(k) { *rng.pick(&[61381usize, 65536, 70000, 130000, 300000]) } else { rng.range(700, 1200) as usize };
+            (*k, Acc::Write(Some((len, rng.next() % 1_000_000))))
+        })
+        .collect();
+    first.dedup_by(|a, b| a.0 == b.0);
+    live.apply(&first);
+    ops.extend(commit_ops(ids.s(), ids.c(), first, false));
+    ops.push(Op::CheckAll { proofs: 2 });
+    if rng.chance(1, 2) {
+        ops.push(Op::Close);
+        ops.push(Op::Open(cfg.clone()));
+    }
+    // rewrite (nearly) everything blind; the keys with the large values are overwritten or deleted
+    let mut second: Vec<(Key, Acc)> = Vec::new();
+    for k in &keys {
+        if big.contains(k) {
+            second.push((*k, if rng.chance(1, 2) { Acc::Write(None) } else { Acc::Write(Some((rng.range(1, 2000) as usize, rng.next() % 1_000_000))) }));
+        } else if rng.chance(9, 10) {
+            second.push((*k, Acc::Write(Some((rng.range(700, 1200) as usize, rng.next() % 1_000_000)))));
+        }
+    }
+    live.apply(&second);
+    ops.extend(commit_ops(ids.s(), ids.c(), second, false));
+    ops.push(Op::CheckAll { proofs: 2 });
+    ops.push(Op::Rollback(1));
+    ops.push(Op::CheckAll { proofs: 2 });
+    ops.push(Op::Close);
+    ops.push(Op::Open(cfg.clone()));
+    ops.push(Op::CheckAll { proofs: 2 });
+    Scenario { ops, label: format!("c09cold n={} big={} cc={}", n, nbig, cfg.cc) }
+}
+
 /// tiny hash table, one stored page per root child, whole sub-tries deleted again (tombstones on
 /// other pages' probe paths), then a cold reopen: every page must still be found
 fn tombstone_history(rng: &mut Rng, ops: &mut Vec<Op>, ids: &mut Ids, live: &mut Live, cfg: &Cfg) {
@@ -1336,6 +1394,87 @@ pub fn c13_big_history(rng: &mut Rng, thorough: bool) -> Vec<Op> {
     ops
 }
 
+/// xxh3 hash of a merkle page id under the hash-table seed of configuration seed `seed`
+/// (Cfg::options puts `seed` little-endian into the first 8 bytes; bitbox reads them big-endian)
+fn page_hash(seed: u64, label: &[u8; 32]) -> u64 {
+    twox_hash::xxhash3_64::Hasher::oneshot_with_seed(seed.swap_bytes(), label)
+}
+
+/// A small hash table at high load whose seed is chosen ADVERSARIALLY: the root page and one of its
+/// 64 child pages (both always stored) start their probe walk at the same bucket and carry the same
+/// 7-bit tag, so whichever of the two is allocated second sits behind a bucket that "possibly hits"
+/// (sometimes two pairs).  The history reopens the directory twice: a new handle has to find the
+/// root page and every other page again by probing.  The results must be those of every other
+/// table size and seed (the specification knows neither).
+pub fn c13_crowded(rng: &mut Rng, _thorough: bool) -> Scenario {
+    use nomt_core::page_id::{ChildPageIndex, ROOT_PAGE_ID};
+    let n = *rng.pick(&[72u32, 80, 96, 96, 128, 160]);
+    let root_label = ROOT_PAGE_ID.encode();
+    let child_labels: Vec<[u8; 32]> = (0..64u8)
+        .map(|i| ROOT_PAGE_ID.child_page_id(ChildPageIndex::new(i).unwrap()).unwrap().encode())
+        .collect();
+    let start = rng.next() % 1_000_000_000;
+    let mut seed = start;
+    let mut best = (0usize, start);
+    for t in 0..400_000u64 {
+        let s = start + t;
+        let hr = page_hash(s, &root_label);
+        let hits = child_labels
+            .iter()
+            .filter(|l| {
+                let h = page_hash(s, l);
+                h >> 57 == hr >> 57 && h % n as u64 == hr % n as u64
+            })
+            .count();
+        if hits > best.0 {
+            best = (hits, s);
+        }
+        if hits >= 1 && (t > 50_000 || hits >= 2) {
+            seed = s;
+            break;
+        }
+        seed = best.1;
+    }
+    let mut cfg = gen_cfg(rng);
+    cfg.ht = n;
+    cfg.seed = seed;
+    cfg.rollback = false;
+    cfg.segsz = 0;
+    cfg.cc = *rng.pick(&[1usize, 2, 4]);
+    let mut ops = vec![Op::Open(cfg.clone())];
+    let mut ids = Ids::new();
+    // two to three keys under every child of the root: 65 stored pages, nothing below them
+    let mut keys: Vec<Key> = Vec::new();
+    for i in 0..64u8 {
+        for _ in 0..rng.range(2, 3) {
+            let mut k = rng.key();
+            k[0] = (i << 2) | (k[0] & 3);
+            keys.push(k);
+        }
+    }
+    keys.sort();
+    keys.dedup();
+    let first: Vec<(Key, Acc)> = keys.iter().map(|k| (*k, Acc::Write(Some((rng.range(1, 40) as usize, rng.next() % 1_000_000))))).collect();
+    ops.extend(commit_ops(ids.s(), ids.c(), first, false));
+    ops.push(Op::CheckAll { proofs: 6 });
+    ops.push(Op::Close);
+    ops.push(Op::Open(cfg.clone()));
+    ops.push(Op::CheckAll { proofs: 6 });
+    let mut second: Vec<(Key, Acc)> = Vec::new();
+    for k in &keys {
+        if rng.chance(1, 3) {
+            let w = if rng.chance(1, 4) { Acc::Write(None) } else { Acc::Write(Some((rng.range(1, 40) as usize, rng.next() % 1_000_000))) };
+            second.push((*k, w));
+        }
+    }
+    ops.extend(commit_ops(ids.s(), ids.c(), second, false));
+    ops.push(Op::CheckAll { proofs: 6 });
+    ops.push(Op::Close);
+    ops.push(Op::Open(cfg.clone()));
+    ops.push(Op::CheckAll { proofs: 6 });
+    Scenario { ops, label: format!("c13crowded n={} seed={} collisions={}", n, seed, best.0) }
+}
+
 pub fn c13_cfgs(rng: &mut Rng, n: usize) -> Vec<Cfg> {
     let mut v = Vec::new();
     for i in 0..n {
@@ -1362,8 +1501,8 @@ pub fn generate(prop: &str, rng: &mut Rng, thorough: bool) -> Vec<Scenario> {
         "C02" => vec![c02(rng, thorough)],
         "C05" => vec![c05(rng, thorough)],
         "C06" => vec![c06(rng, thorough)],
-        "C09" => vec![c09(rng, thorough)],
-        "C10" => vec![c10(rng, thorough)],
+        "C09" => vec![if rng.chance(1, 10) { c09_cold_prior(rng, thorough) } else { c09(rng, thorough) }],
+        "C10" => vec![if rng.chance(1, 6) { c13_crowded(rng, thorough) } else { c10(rng, thorough) }],
         "C11" => vec![c11(rng, thorough)],
         "C12" => vec![if rng.chance(1, 3) { c12_aba(rng, thorough) } else { c12(rng, thorough) }],
         "C13" => {
@@ -1388,6 +1527,10 @@ pub fn generate(prop: &str, rng: &mut Rng, thorough: bool) -> Vec<Scenario> {
                     ops.extend(hist.iter().cloned());
                     v.push(Scenario { ops, label: format!("c13edges {}", c.to_line()) });
                 }
+            }
+            // every third history: a crowded little hash table with an adversarial seed, reopened
+            if rng.chance(1, 3) {
+                v.push(c13_crowded(rng, thorough));
             }
             // every fourth history (every second in the thorough tier): the large-tree flavour
             // under the smallest caches
